@@ -210,6 +210,10 @@ def cases(rng, tier, shard, nshards):
         for _ in range(2):
             tot = int(rng.integers(1010, 1400))
             la = int(rng.integers(200, tot - 200))
+            if _ == 0:
+                # the corner next to or on a block boundary (2^k - 1, 2^k, 2^k + 1): blocked / strided evaluation meets its
+                # own seams there
+                la = int(pick(rng, [255, 256, 257, 511, 512, 513]))
             j1, j2 = slopes_of(rng, SHAPES[int(rng.integers(0, len(SHAPES)))])
             e = elbow(rng, la, tot - la, j1, j2)
             if np.all(np.abs(e['points']) < 2.0 ** 17):
